@@ -169,7 +169,7 @@ func evDesc(ev abcitypes.Event) string {
 func TestC14_RoundTrip(t *testing.T) {
 	rec := recorder("C14")
 	rec.AddRule("(a) generated values of all eight event types (boundary integers, empty/one-element lists, empty byte strings, zero big integers, identity and generator G2 points, 0-3 gammas): MakeEvent(MakeABCIEvent(x), h) must equal x with Height=h (nil and empty lists identified); non-trivial = value with an empty list, a zero, or an extreme integer. (b) every event the real application emits along apphist histories must decode and re-encode to the identical attribute list. (c) decoder robustness: attribute lists and values of valid events mutated (dropped, renamed, swapped, duplicated attributes; non-digits, sign, overflow, odd-length hex, missing 0x, wrong-length address, invalid base64 / curve point): never panics, certainly-malformed classes return an error, and any successful decode re-encodes and decodes to the same value; non-trivial = mutant that keeps the right attribute names")
-	runRapid(t, N(3000, 100000), func(rt *rapid.T) {
+	runRapid(t, N(3000, 1500000), func(rt *rapid.T) {
 		x := genEvent(rt)
 		h := rapid.Int64().Draw(rt, "height")
 		abci := x.MakeABCIEvent()
@@ -327,7 +327,7 @@ func mutateEvent(t *rapid.T, ev abcitypes.Event) (abcitypes.Event, bool, bool, s
 
 func TestC14_DecoderRobustness(t *testing.T) {
 	rec := recorder("C14")
-	runRapid(t, N(3000, 100000), func(rt *rapid.T) {
+	runRapid(t, N(3000, 1500000), func(rt *rapid.T) {
 		x := genEvent(rt)
 		abci := x.MakeABCIEvent()
 		nm := rapid.IntRange(1, 2).Draw(rt, "nMut")
